@@ -15,7 +15,11 @@ pub const EXIT_MACHINERY: i32 = 2;
 /// `share` of VERIF_THOROUGH_S (default 720 s).
 pub fn budget(thorough: bool, quick_s: f64, share: f64) -> f64 {
     if !thorough {
-        return quick_s;
+        // Quick tiers are defined by their bounds (depth, deviations, alphabets), not by time: the
+        // figure passed in is the wall time the bounded search needs on an idle 16-core machine,
+        // the cap is four times that so that a loaded machine still completes the bound.
+        let scale: f64 = std::env::var("VERIF_QUICK_SCALE").ok().and_then(|v| v.parse().ok()).unwrap_or(4.0);
+        return quick_s * scale;
     }
     let total: f64 = std::env::var("VERIF_THOROUGH_S").ok().and_then(|v| v.parse().ok()).unwrap_or(720.0);
     total * share
